@@ -272,6 +272,7 @@ static void judge(Ctx& c, std::vector<Stat>& stats, int sim, const std::string& 
     c.check(st.cls == "mean" ? "mean" : st.cls == "variance" ? "variance" : (st.iv == st.jv ? "covariance" : "cross-covariance"),
             // key = simulator : support / model class : {mean, variance, covariance, cross-covariance}; the lag class is in the detail
             (!foldKey.empty() && st.cls != "mean") ? foldKey :
+            (sim == S_TUB && st.cls != "mean" && st.iv != st.jv) ? std::string("C14:simtub:cross-covariance") :
             keyBase + ":" + (st.cls == "mean" ? std::string("mean") + (meanNonZero ? ":model-mean-nonzero" : ":model-mean-zero")
                              : st.cls == "variance" ? "variance" : st.iv == st.jv ? "covariance" : "cross-covariance"), ok, std::isfinite(T) ? err : INFINITY, bound,
             ok ? "" : fmt("[%s] %s: ensemble %.6g model %.6g, bound %.4g (z*SD part %.4g, allowance %.4g), R=%d", st.cls.c_str(), st.label.c_str(), T, st.E, bound,
